@@ -131,6 +131,154 @@ theorem load_spec (st : State B T) (p : Path) (hi : Inv parse st) :
       obtain ⟨h1, h2, h3, h4⟩ := cachedLoad_spec cfg parse st p f hf hi t st' hc
       exact ⟨by rw [h1], h2, h3, h4⟩
 
+/-! ### the stub lookup (`typeshed._try_to_load_stub` for a sub-module) -/
+
+/-- candidates are tried in order; under the invariant the first one that exists is served from its
+present bytes, whatever the cache layers hold -/
+theorem loadFirst_spec (l : List Path) (st : State B T) (hi : Inv parse st) :
+    (loadFirst cfg parse st l).1 = firstServed parse st.fs l ∧
+    Inv parse (loadFirst cfg parse st l).2 ∧ (loadFirst cfg parse st l).2.fs = st.fs := by
+  induction l generalizing st with
+  | nil => exact ⟨rfl, hi, rfl⟩
+  | cons p r ih =>
+    obtain ⟨h1, h2, h3, _⟩ := load_spec cfg parse st p hi
+    unfold loadFirst firstServed
+    rcases hl : load cfg parse st p with ⟨_ | t, st'⟩
+    · rw [hl] at h1 h2 h3
+      simp only at h1 h2 h3 ⊢
+      cases hf : st.fs p with
+      | some f => rw [hf] at h1; cases h1
+      | none =>
+        simp only
+        obtain ⟨a, b, c⟩ := ih st' h2
+        exact ⟨by rw [a, h3], b, by rw [c, h3]⟩
+    · rw [hl] at h1 h2 h3
+      simp only at h1 h2 h3 ⊢
+      cases hf : st.fs p with
+      | none => rw [hf] at h1; cases h1
+      | some f =>
+        rw [hf] at h1
+        simp only [Option.map_some, Option.some.injEq] at h1
+        exact ⟨by rw [h1], h2, h3⟩
+
+theorem firstServed_exists (fs : Path → Option (File B)) (l : List Path) (p : Path) (t : T)
+    (h : firstServed parse fs l = some (p, t)) : ∃ f, fs p = some f ∧ t = parse f.bytes := by
+  induction l with
+  | nil => cases h
+  | cons a r ih =>
+    unfold firstServed at h
+    cases hf : fs a with
+    | none => rw [hf] at h; exact ih h
+    | some f =>
+      rw [hf] at h
+      simp only [Option.some.injEq, Prod.mk.injEq] at h
+      exact ⟨f, by rw [← h.1, hf], h.2.symm⟩
+
+theorem stubNow_exists (fs : Path → Option (File B)) (q : StubQuery) (p : Path) (t : T)
+    (h : stubNow parse fs q = some (p, t)) : ∃ f, fs p = some f ∧ t = parse f.bytes := by
+  unfold stubNow at h
+  split at h
+  · rename_i r hr
+    cases h
+    exact firstServed_exists parse fs _ p t hr
+  · split at h
+    · rename_i r hr
+      cases h
+      split at hr
+      · exact firstServed_exists parse fs _ p t hr
+      · cases hr
+    · split at h
+      · exact firstServed_exists parse fs _ p t h
+      · cases h
+
+theorem listing_inv (st : State B T) (d : Path) (hi : Inv parse st) :
+    Inv parse (listing cfg st d).2 ∧ (listing cfg st d).2.fs = st.fs := by
+  unfold listing
+  split
+  · split
+    · exact ⟨hi, rfl⟩
+    · exact ⟨⟨hi.memOk, hi.pickleOk⟩, rfl⟩
+  · exact ⟨hi, rfl⟩
+
+/-- without a memo the listing is the present file system -/
+theorem listing_now (st : State B T) (d : Path) (hc : cfg.stubListingCached = false) :
+    listing cfg st d = (fun p => (st.fs p).isSome, st) := by
+  unfold listing
+  simp [hc]
+
+/-- the stub lookup keeps the invariant and does not touch the file system (any configuration) -/
+theorem tryLoadStub_inv (st : State B T) (q : StubQuery) (hi : Inv parse st) :
+    Inv parse (tryLoadStub cfg parse st q).2 ∧ (tryLoadStub cfg parse st q).2.fs = st.fs := by
+  unfold tryLoadStub
+  obtain ⟨_, b1, c1⟩ := loadFirst_spec cfg parse q.direct st hi
+  rcases h1 : loadFirst cfg parse st q.direct with ⟨_ | r, st1⟩
+  · rw [h1] at b1 c1
+    simp only at b1 c1 ⊢
+    have hvia : Inv parse (if q.useListing = true then
+          loadFirst cfg parse (listing cfg st1 q.dir).2 (stubMapOf (listing cfg st1 q.dir).1 q).toList
+          else (none, st1)).2 ∧
+        (if q.useListing = true then
+          loadFirst cfg parse (listing cfg st1 q.dir).2 (stubMapOf (listing cfg st1 q.dir).1 q).toList
+          else (none, st1)).2.fs = st.fs := by
+      split
+      · obtain ⟨li, lf⟩ := listing_inv cfg parse st1 q.dir b1
+        obtain ⟨_, b2, c2⟩ := loadFirst_spec cfg parse
+          (stubMapOf (listing cfg st1 q.dir).1 q).toList (listing cfg st1 q.dir).2 li
+        exact ⟨b2, by rw [c2, lf, c1]⟩
+      · exact ⟨b1, c1⟩
+    rcases h2 : (if q.useListing = true then
+          loadFirst cfg parse (listing cfg st1 q.dir).2 (stubMapOf (listing cfg st1 q.dir).1 q).toList
+          else (none, st1)) with ⟨_ | r, st3⟩
+    · rw [h2] at hvia
+      simp only at hvia ⊢
+      split
+      · obtain ⟨_, b3, c3⟩ := loadFirst_spec cfg parse [q.modStub] st3 hvia.1
+        exact ⟨b3, by rw [c3, hvia.2]⟩
+      · exact hvia
+    · rw [h2] at hvia
+      exact hvia
+  · rw [h1] at b1 c1
+    exact ⟨b1, c1⟩
+
+/-- **the stub served.**  When `_create_stub_map` is not memoised, the stub lookup answers from
+the files as they are now: the same candidate, parsed from its present bytes, as `stubNow` -/
+theorem tryLoadStub_spec (st : State B T) (q : StubQuery) (hi : Inv parse st)
+    (hc : cfg.stubListingCached = false) :
+    (tryLoadStub cfg parse st q).1 = stubNow parse st.fs q := by
+  unfold tryLoadStub stubNow
+  obtain ⟨a1, b1, c1⟩ := loadFirst_spec cfg parse q.direct st hi
+  rcases h1 : loadFirst cfg parse st q.direct with ⟨_ | r, st1⟩
+  · rw [h1] at a1 b1 c1
+    simp only at a1 b1 c1 ⊢
+    rw [← a1]
+    simp only [listing_now cfg st1 q.dir hc]
+    rw [← c1]
+    by_cases hu : q.useListing = true
+    · simp only [hu, if_true]
+      obtain ⟨a2, b2, c2⟩ := loadFirst_spec cfg parse
+        (stubMapOf (fun p => (st1.fs p).isSome) q).toList st1 b1
+      rcases h2 : loadFirst cfg parse st1 (stubMapOf (fun p => (st1.fs p).isSome) q).toList with ⟨_ | r, st3⟩
+      · rw [h2] at a2 b2 c2
+        simp only at a2 b2 c2 ⊢
+        rw [← a2]
+        simp only
+        split
+        · obtain ⟨a3, _, _⟩ := loadFirst_spec cfg parse [q.modStub] st3 b2
+          rw [a3, c2]
+        · rfl
+      · rw [h2] at a2
+        simp only at a2 ⊢
+        rw [← a2]
+    · simp only [hu]
+      simp only [Bool.false_eq_true, if_false]
+      split
+      · obtain ⟨a3, _, _⟩ := loadFirst_spec cfg parse [q.modStub] st1 b1
+        rw [a3]
+      · rfl
+  · rw [h1] at a1
+    simp only at a1 ⊢
+    rw [← a1]
+
 variable (find : (Path → Option (File B)) → String → Option Path)
 
 theorem importName_inv (st : State B T) (n : String) (hi : Inv parse st) :
@@ -258,6 +406,7 @@ theorem step_inv (st : State B T) (o : Op B) (hi : Inv parse st) (ho : OpOk st o
         · exact (hi.pickleOk q pk h).2 f h2 hle
   | load p => exact (load_spec cfg parse st p hi).2.1
   | importName n => exact (importName_inv cfg parse find st n hi).1
+  | stubImport q => exact (tryLoadStub_inv cfg parse st q hi).1
   | newScript =>
     simp only [step]
     split
@@ -267,6 +416,9 @@ theorem step_inv (st : State B T) (o : Op B) (hi : Inv parse st) (ho : OpOk st o
     simp only [step]
     exact ⟨by intro q it h; simp at h, hi.pickleOk⟩
   | tick dt => exact ⟨hi.memOk, hi.pickleOk⟩
+
+theorem inv_freshProcess (st : State B T) : Inv parse (freshProcess st) := by
+  constructor <;> simp [freshProcess]
 
 theorem run_inv (h : List (Op B)) (st : State B T) (hi : Inv parse st)
     (hok : AllOk cfg parse find st h) : Inv parse (run cfg parse find st h) := by
